@@ -17,9 +17,42 @@ theorem normalizeName_short (d : Dialect) (n : Name) (h : n.length ≤ maxNameLe
     (normalizeName d n).length = n.length := by
   cases d <;> simp [normalizeName, lower, upper, List.length_take] <;> omega
 
-theorem defaultIndexName_length (d t c p u m) : (defaultIndexName d t c p u m).length ≤ maxNameLen d :=
-  normalizeName_length _ _
-theorem defaultFkName_length (d t c) : (defaultFkName d t c).length ≤ maxNameLen d := normalizeName_length _ _
+theorem toLower_idem (c : Char) : c.toLower.toLower = c.toLower := by
+  unfold Char.toLower
+  by_cases h : c.val ≥ 'A'.val ∧ c.val ≤ 'Z'.val
+  · simp only [h, and_self, dite_true]
+    have e1 : 'A'.val = 65 := by decide
+    have e2 : 'Z'.val = 90 := by decide
+    have e3 : 'a'.val = 97 := by decide
+    have h1 : (65 : UInt32) ≤ c.val := e1 ▸ h.1
+    have h2 : c.val ≤ (90 : UInt32) := e2 ▸ h.2
+    have : ¬ ((c.val + ('a'.val - 'A'.val)) ≥ 'A'.val ∧ (c.val + ('a'.val - 'A'.val)) ≤ 'Z'.val) := by
+      intro ⟨_, hb⟩
+      rw [e1, e2, e3] at hb
+      rw [UInt32.le_iff_toNat_le] at h1 h2 hb
+      rw [UInt32.toNat_add, UInt32.toNat_sub_of_le _ _ (by decide)] at hb
+      simp at h1 h2 hb
+      omega
+    simp only [this, dite_false]
+  · simp only [h, dite_false]
+
+theorem lower_idem (n : Name) : lower (lower n) = lower n := by
+  simp [lower, List.map_map, Function.comp_def, toLower_idem]
+
+/-- does `normalize_name` lower-case (PostgreSQL, MySQL) -/
+def lowerCasing : Dialect → Bool
+  | .postgres => true | .mysql => true | _ => false
+
+/-- what `normalize_name` guarantees about its result: it fits the limit, and on the lower-casing dialects it is
+    in lower case -/
+def NormOk (d : Dialect) (n : Name) : Prop := n.length ≤ maxNameLen d ∧ (lowerCasing d = true → lower n = n)
+
+theorem normalizeName_ok (d : Dialect) (n : Name) : NormOk d (normalizeName d n) := by
+  refine ⟨normalizeName_length d n, ?_⟩
+  cases d <;> simp [lowerCasing, normalizeName, lower_idem]
+
+theorem defaultIndexName_ok (d t c p u m) : NormOk d (defaultIndexName d t c p u m) := normalizeName_ok _ _
+theorem defaultFkName_ok (d t c) : NormOk d (defaultFkName d t c) := normalizeName_ok _ _
 
 /-! ### the invariant -/
 
@@ -32,12 +65,12 @@ structure Inv (s : Schema) : Prop where
   namesCount : ∀ n, s.names.count n = (objNames s).count n
   fkTables : ∀ f ∈ s.fks, f.table ∈ tableNames s ∧ f.parent ∈ tableNames s
 
-/-- names tagged `norm` respect the dialect's limit -/
+/-- names tagged `norm` respect the dialect's limit (and are lower case on PostgreSQL / MySQL) -/
 structure LenInv (d : Dialect) (s : Schema) : Prop where
-  tables : ∀ t ∈ s.tables, t.src = .norm → t.name.length ≤ maxNameLen d
-  columns : ∀ c ∈ s.columns, c.src = .norm → c.name.length ≤ maxNameLen d
-  indexes : ∀ i ∈ s.indexes, ∀ n, i.name = some n → i.src = .norm → n.length ≤ maxNameLen d
-  fks : ∀ f ∈ s.fks, ∀ n, f.name = some n → f.src = .norm → n.length ≤ maxNameLen d
+  tables : ∀ t ∈ s.tables, t.src = .norm → NormOk d t.name
+  columns : ∀ c ∈ s.columns, c.src = .norm → NormOk d c.name
+  indexes : ∀ i ∈ s.indexes, ∀ n, i.name = some n → i.src = .norm → NormOk d n
+  fks : ∀ f ∈ s.fks, ∀ n, f.name = some n → f.src = .norm → NormOk d n
 
 theorem inv_empty : Inv {} := by
   constructor <;> simp [tableNames, colKeys, objNames]
@@ -127,7 +160,7 @@ theorem addTable_inv {s s' : Schema} {n src e} (h : Inv s) (hs : addTable s n sr
     simp only [tableNames, List.map_append, List.mem_append]
     exact ⟨Or.inl this.1, Or.inl this.2⟩
 
-theorem addTable_lenInv {d} {s s' : Schema} {n src e} (h : LenInv d s) (hn : src = .norm → n.length ≤ maxNameLen d)
+theorem addTable_lenInv {d} {s s' : Schema} {n src e} (h : LenInv d s) (hn : src = .norm → NormOk d n)
     (hs : addTable s n src e = .ok s') : LenInv d s' := by
   unfold addTable at hs
   split at hs; · cases hs
@@ -187,7 +220,7 @@ theorem addColumn_inv {s s' : Schema} {t n src nn} (h : Inv s) (hs : addColumn s
   · intro a; simpa [objNames] using h.namesCount a
   · exact h.fkTables
 
-theorem addColumn_lenInv {d} {s s' : Schema} {t n src nn} (h : LenInv d s) (hn : src = .norm → n.length ≤ maxNameLen d)
+theorem addColumn_lenInv {d} {s s' : Schema} {t n src nn} (h : LenInv d s) (hn : src = .norm → NormOk d n)
     (hs : addColumn s t n src nn = .ok s') : LenInv d s' := by
   unfold addColumn at hs
   split at hs; · cases hs
@@ -274,7 +307,7 @@ theorem commitIndex_inv {s : Schema} {t nm cols isPk uniq} (h : Inv s)
     simpa [commitIndex, tableNames] using this
 
 theorem commitIndex_lenInv {d} {s : Schema} {t nm cols isPk uniq} (h : LenInv d s)
-    (hn : ∀ p, nm = some p → p.2 = .norm → p.1.length ≤ maxNameLen d) : LenInv d (commitIndex s t nm cols isPk uniq) := by
+    (hn : ∀ p, nm = some p → p.2 = .norm → NormOk d p.1) : LenInv d (commitIndex s t nm cols isPk uniq) := by
   have h1 := setPk_lenInv (d := d) t isPk h
   constructor
   · exact h1.tables
@@ -295,14 +328,14 @@ theorem commitIndex_lenInv {d} {s : Schema} {t nm cols isPk uniq} (h : LenInv d 
   · exact h1.fks
 
 theorem indexNameOf_len (d t arg cols isPk isUnique m2m) :
-    ∀ p, indexNameOf d t arg cols isPk isUnique m2m = some p → p.2 = .norm → p.1.length ≤ maxNameLen d := by
+    ∀ p, indexNameOf d t arg cols isPk isUnique m2m = some p → p.2 = .norm → NormOk d p.1 := by
   intro p hp hnorm
   unfold indexNameOf at hp
   split at hp
   · cases hp; cases hnorm
   · split at hp
     · cases hp
-    · cases hp; exact defaultIndexName_length ..
+    · cases hp; exact defaultIndexName_ok ..
 
 /-- the only two outcomes of a successful `add_index`: nothing changes, or one index is committed under a fresh name -/
 theorem addIndex_ok {d} {s s' : Schema} {t arg cols isPk isUnique m2m}
@@ -388,7 +421,7 @@ theorem commitFk_inv {s : Schema} {c nm cols p pc} (h : Inv s) (hn : nm.1 ∉ s.
     · exact h.fkTables f hf
     · exact ⟨hc, hp⟩
 
-theorem commitFk_lenInv {d} {s : Schema} {c nm cols p pc} (h : LenInv d s) (hn : nm.2 = .norm → nm.1.length ≤ maxNameLen d) :
+theorem commitFk_lenInv {d} {s : Schema} {c nm cols p pc} (h : LenInv d s) (hn : nm.2 = .norm → NormOk d nm.1) :
     LenInv d (commitFk s c nm cols p pc) := by
   constructor
   · exact h.tables
@@ -402,10 +435,10 @@ theorem commitFk_lenInv {d} {s : Schema} {c nm cols p pc} (h : LenInv d s) (hn :
       subst hx
       exact hn hsrc
 
-theorem fkNameOf_len (d c cols n) : (fkNameOf d c cols n).2 = .norm → (fkNameOf d c cols n).1.length ≤ maxNameLen d := by
+theorem fkNameOf_len (d c cols n) : (fkNameOf d c cols n).2 = .norm → NormOk d (fkNameOf d c cols n).1 := by
   cases n with
   | some n => simp [fkNameOf]
-  | none => intro _; exact defaultFkName_length ..
+  | none => intro _; exact defaultFkName_ok ..
 
 /-- a successful `add_foreign_key` commits the key under a fresh name and then possibly adds the implicit index -/
 theorem addFk_ok {d} {s s' : Schema} {c n cols p pc ix} (hs : addFk d s c n cols p pc ix = .ok s') :
@@ -485,7 +518,7 @@ theorem not_acc_of_closed {s : Schema} {todo acc : List Name}
   | intro t _ ih =>
     intro ht
     have hnr := (List.find?_eq_none.mp hnone) t ht
-    simp only [ready, List.all_eq_true, Bool.not_eq_true] at hnr
+    simp only [ready, List.all_eq_true] at hnr
     have : ∃ p ∈ parents s t, p ∉ acc := by
       apply Classical.byContradiction
       intro hcon
